@@ -36,10 +36,12 @@ inline constexpr bool are_scalar_multiplication_types_v =
  *
  * @tparam S type of the scalar.
  * @tparam O type of the operator to be multiplied with the scalar.
+ * @tparam divide If true, the operator is divided by the scalar instead.
  */
 template <typename S, typename O,
           std::enable_if_t<are_scalar_multiplication_types_v<S, O>, bool> =
-              true>
+              true,
+          bool divide = false>
 class ScalarMultiplication final : public Operator {
  private:
   /*! The scalar to multiply the operator with. */
@@ -98,9 +100,13 @@ class ScalarMultiplication final : public Operator {
                  size_t intervalIndex) const {
     auto a = _o.transform(input, grid, intervalIndex);
 
-    // Multiply a.
+    // Multiply (or divide) a.
     for (T &el : a) {
-      el *= static_cast<T>(_s);
+      if constexpr (divide) {
+        el /= static_cast<T>(_s);
+      } else {
+        el *= static_cast<T>(_s);
+      }
     }
     return a;
   }
@@ -162,8 +168,8 @@ ScalarMultiplication<S, O> operator*(O &&o, const S &s) {
 template <
     typename S, typename O,
     std::enable_if_t<are_scalar_multiplication_types_v<S, O>, bool> = true>
-ScalarMultiplication<S, O> operator/(O &&o, const S &s) {
-  return ScalarMultiplication(static_cast<S>(1) / s, std::forward<O>(o));
+ScalarMultiplication<S, O, true, true> operator/(O &&o, const S &s) {
+  return ScalarMultiplication<S, O, true, true>(s, std::forward<O>(o));
 }
 
 /*!
